@@ -780,9 +780,12 @@ RootGraphView nested_graph_root_impl(const void *context,
   return parent.graph().root();
 }
 
+// ``missed_before``: an entry earlier than this was never evaluated and never
+// will be (its cycle is over), so it is as stale as a consumed one.
 template <typename Storage>
-void schedule_node_impl(const void *context, const GraphView &graph,
-                        std::size_t node_index, DateTime when) {
+void schedule_node_after(const void *context, const GraphView &graph,
+                         std::size_t node_index, DateTime when,
+                         DateTime missed_before) {
   const auto &runtime = graph_context(context);
   auto &state = graph_header<Storage>(runtime, graph.data());
   if (node_index >= runtime.layout.node_count) {
@@ -795,12 +798,18 @@ void schedule_node_impl(const void *context, const GraphView &graph,
   }
 
   auto &scheduled = graph_schedule(runtime, graph.data(), node_index);
-  if (scheduled <= current || when < scheduled) {
+  if (scheduled <= current || scheduled < missed_before || when < scheduled) {
     scheduled = when;
     if (when > current && when < state.next_scheduled_time) {
       state.next_scheduled_time = when;
     }
   }
+}
+
+template <typename Storage>
+void schedule_node_impl(const void *context, const GraphView &graph,
+                        std::size_t node_index, DateTime when) {
+  schedule_node_after<Storage>(context, graph, node_index, when, MIN_DT);
 }
 
 // The **push** half of nested scheduling delegation (the RFC clock
@@ -823,8 +832,12 @@ void nested_schedule_node_impl(const void *context, const GraphView &graph,
   // must run in the parent's current cycle, never schedule either
   // graph back at the child's stale clock.
   when = std::max(when, parent.graph().evaluation_time());
-  schedule_node_impl<NestedGraphRuntimeStorage>(context, graph, node_index,
-                                                when);
+  // A child that was due in a cycle which failed before reaching it keeps
+  // entries at that cycle's time while its own clock is older still. They
+  // must not shadow this request, or the child's next tick is dropped.
+  schedule_node_after<NestedGraphRuntimeStorage>(
+      context, graph, node_index, when,
+      parent.graph().root().evaluation_time());
 
   // An idle child can receive a current-cycle schedule immediately
   // after startup. The per-node entry is authoritative, but keyed
